@@ -400,3 +400,9 @@ Proof.
     + destruct (IH lr) as [pre [E Hl]]. exists (m :: pre). split; [simpl; rewrite <- E; reflexivity | simpl; lia].
     + exists []. split; auto. simpl. lia.
 Qed.
+
+(* budget 0 with at least one package: one group, i.e. more than the budget *)
+Definition w_pkg (n : string) : pkg := {| p_name := n; p_version := "1"; p_origin := n; p_size := 1; p_replaces := [] |}.
+Lemma budget_zero_one_group :
+  group (fun r => r) (fun _ _ => Ok true) [w_pkg "a"; w_pkg "b"] 0 = Ok [[w_pkg "a"; w_pkg "b"]].
+Proof. vm_compute. reflexivity. Qed.
